@@ -38,6 +38,7 @@ fn standalone_of(p: &Program, f: &FrameSpec) -> Program {
     q.orientation = 1;
     q.animation = None;
     q.intrinsic_size = None;
+    q.preview = None;
     let mut g = f.clone();
     g.kind = FrameKind::Regular;
     g.crop = None;
